@@ -3,6 +3,7 @@ import envsetup
 import savebuild
 import savecommon as sc
 from common import Rng
+from common import sexp
 from framework import CaseResult, Check
 
 FILL = 0xDD
@@ -161,6 +162,9 @@ class C18(Check):
         if real.startswith('e:'):
             mon.append(f'a clean container was rejected: {real}')
             return CaseResult(real, model, mon, '', None, info_d)
+        # non-vacuity of the hash-path theorem: are its hypotheses (regular geometry, layout, descriptor room) met by this image?
+        hyp = drv.ask(sexp(['save-hyp', geom['kind'], f]))
+        info_d['theorem-hypotheses:' + ('all-met' if hyp.startswith('ok') and all(x.endswith(':gld') for x in hyp.split()[1:]) else hyp[:40])] = 1
         if case.get('mode') == 'lv3':
             return self.run_lv3(case, f, infos, ops, writable, real, model, sess, outs, info_d)
         refs = []
